@@ -59,8 +59,8 @@ def overlap_branch(run, repo, f):
     for c, t, h in repo.callees(f):
         if h == 'name' and t[0].name == 'stabilizer_projection_trace':
             bind.check_call(run, repo, f, c, t[0])
-            a = c.args
-            if len(a) >= 5:
+            a = K.actuals(t[0], c)
+            if len(a) >= 5 and None not in a[:5]:
                 run.check('self.gs' in norm(a[0]) and 'self.ps' in norm(a[1]), 'R2.overlap', f, c,
                           'the projected state must be the receiver')
                 acc_g, acc_p = parallel.field_access(a[2]), parallel.field_access(a[3])
@@ -82,7 +82,8 @@ def overlap_branch(run, repo, f):
                             if norm(n) == '%s.r' % obs:
                                 return rv
                             raise Undecidable('attr')
-                        if abs(ev(st.value, {'trace': tv}, attr=attr) - tv / 2 ** rv) > 1e-12:
+                        env = {n.id: tv for n in ast.walk(st.value) if isinstance(n, ast.Name) and n.id not in f.params}
+                        if abs(ev(st.value, env, attr=attr) - tv / 2 ** rv) > 1e-12:
                             ok = False
             except Undecidable:
                 ok = None
@@ -99,20 +100,23 @@ def trace_kernel(run, repo, rel, loop_form):
     f, k = projk.guards_and_block(run, repo, rel, 'stabilizer_projection_trace', signed=True, loop_form=loop_form)
     if k is None or k.block is None:
         return
-    halves = [s for s in k.block if isinstance(s, ast.Assign) and norm(s.targets[0]) == 'trace']
+    from ..names import return_names
+    rn = return_names(f)
+    TR = rn[-1] if rn and rn[-1] else 'trace'
+    halves = [s for s in k.block if isinstance(s, ast.Assign) and norm(s.targets[0]) == TR]
     ok = len(halves) == 1
     if ok:
         try:
-            ok = all(abs(ev(halves[0].value, {'trace': tv}) - tv / 2) < 1e-12 for tv in (1.0, 0.25))
+            ok = all(abs(ev(halves[0].value, {TR: tv}) - tv / 2) < 1e-12 for tv in (1.0, 0.25))
         except Undecidable:
             ok = False
-    run.check(ok, 'R11.trace', f, halves[0] if halves else 'trace', 'projecting onto an undetermined stabilizer halves the trace, exactly once')
+    run.check(ok, 'R11.trace', f, halves[0] if halves else TR, 'projecting onto an undetermined stabilizer halves the trace, exactly once')
     owner = None
     for st, ctx in walk(f.node):
         if isinstance(st, ast.If) and st.body is k.block:
             owner = st
     if owner is not None:
-        zero = [n for s in owner.orelse for n in ast.walk(s) if isinstance(n, ast.Assign) and norm(n.targets[0]) == 'trace']
+        zero = [n for s in owner.orelse for n in ast.walk(s) if isinstance(n, ast.Assign) and norm(n.targets[0]) == TR]
         ok = len(zero) == 1 and isinstance(zero[0].value, ast.Constant) and zero[0].value.value == 0
         run.check(ok, 'R11.trace', f, owner.test, 'a determined stabilizer with the opposite sign makes the trace zero')
         for s in owner.orelse:
@@ -127,7 +131,9 @@ def trace_kernel(run, repo, rel, loop_form):
                                 if isinstance(n.value, ast.Name) and n.value.id in ('ps_obs', 'ps_ob'):
                                     return B
                                 raise Undecidable('sub')
-                            if bool(ev(t, {'pa': A, 'ps_ob': B}, sub=sub)) != (A != B):
+                            env = {n.id: A for n in ast.walk(t) if isinstance(n, ast.Name) and n.id not in f.params}
+                            env['ps_ob'] = B
+                            if bool(ev(t, env, sub=sub)) != (A != B):
                                 ok = False
                 except Undecidable:
                     ok = None
@@ -137,11 +143,11 @@ def trace_kernel(run, repo, rel, loop_form):
                     run.check(ok, 'R11.trace', f, t,
                               'the trace vanishes exactly when the accumulated sign differs from the projector\'s sign')
     init = [st for st, ctx in walk(f.node) if isinstance(st, ast.Assign) and not ctx.loops and any(
-        isinstance(t, ast.Name) and t.id == 'trace' for t in ast.walk(st.targets[0]))]
+        isinstance(t, ast.Name) and t.id == TR for t in ast.walk(st.targets[0]))]
     if init:
         v = init[0].value
         if isinstance(init[0].targets[0], ast.Tuple):
-            idx = [norm(e) for e in init[0].targets[0].elts].index('trace')
+            idx = [norm(e) for e in init[0].targets[0].elts].index(TR)
             v = init[0].value.elts[idx]
         run.check(isinstance(v, ast.Constant) and v.value == 1, 'R11.trace', f, init[0], 'the trace starts at 1')
 
@@ -159,7 +165,7 @@ def check(run):
             if h == 'name' and t[0].name == 'stabilizer_expect':
                 bind.check_call(run, repo, f, c, t[0])
                 obs = f.posparams[1]
-                run.check([norm(a) for a in c.args] == ['self.gs', 'self.ps', '%s.gs' % obs, '%s.ps' % obs, 'self.r'],
+                run.check(K.actual_texts(t[0], c) == ['self.gs', 'self.ps', '%s.gs' % obs, '%s.ps' % obs, 'self.r'],
                           'R2.expect', f, c, 'list expectation must hand (self.gs, self.ps, obs.gs, obs.ps, self.r) to the kernel')
         g = repo.func(rel, 'StabilizerState.get_prob')
         effect.check_pure(run, eff, g)
